@@ -1,6 +1,7 @@
 """C16 check configuration."""
 
 PROP = {
+    "thorough_scale": 4,
     "parts": [
         {"name": "server", "pkg": "internal/dnsforward",
          "files": ["dnsforward/common_world_test.go", "dnsforward/c01_test.go", "dnsforward/c16_test.go", "dnsforward/c16_history_test.go"],
